@@ -4,7 +4,17 @@
 Require Extraction.
 Require ExtrOcamlBasic.
 From RPCX Require Select.RoundRobin Select.SWRR.
+From RPCX Require Wire.Bytes Wire.Header Wire.Codec Wire.CodecSpec.
+From RPCX Require Select.Simple Select.Jump Select.DoubleJump.
 Extraction Language OCaml.
 Extraction "model.ml"
   RoundRobin.rr_new RoundRobin.rr_run
-  SWRR.wrr_new SWRR.wrr_run.
+  SWRR.wrr_new SWRR.wrr_run
+  Header.SetVersion Header.SetMessageType Header.SetHeartbeat Header.SetOneway Header.SetCompressType
+  Header.SetMessageStatusType Header.SetSerializeType Header.SetSeq
+  Header.Version Header.MessageType Header.IsHeartbeat Header.IsOneway Header.CompressType
+  Header.MessageStatusType Header.SerializeType Header.Seq
+  Codec.encode_pooled Codec.encode_stream Codec.encode_len Codec.decode Codec.decode_all Codec.fresh_obj
+  CodecSpec.meta_lookup
+  Simple.rnd_select Simple.create_geo Simple.geo_select
+  Jump.jump Jump.hash_string DoubleJump.ch_new DoubleJump.ch_update DoubleJump.ch_select.
